@@ -154,6 +154,8 @@ static inline uint8_t *slot_end(int s) { return g_slot[s].data + SLOT_BYTES; }
 /* object of nbytes ending exactly at the trailing guard */
 static inline void *place_end(int s, size_t nbytes) { return slot_end(s) - nbytes; }
 static inline void *place_begin(int s) { return g_slot[s].data; }
+/* makes the guard page behind slot s readable (never written: zeros) or unmapped again */
+static inline void guard_readable(int s, int on) { if (mprotect(slot_end(s), PAGE, on ? PROT_READ : PROT_NONE)) { perror("mprotect guard"); exit(2); } }
 static inline void *place_mid(int s, size_t off) { return g_slot[s].data + off; }
 
 static void arena_canary(void) { for (int i = 0; i < NSLOT; i++) memset(g_slot[i].data, CANARY, SLOT_BYTES); }
